@@ -49,6 +49,7 @@ type c04Spec struct {
 	BlockMs         int       `json:"block_ms,omitempty"`        // ... for this long (0: none): cancellation notices must not queue behind it
 	BodyLatencyMs   int       `json:"body_latency_ms,omitempty"` // http-json: the JSON body of every tools/call response is this long in transit after its headers (a cancel or deadline can fall into that window)
 	NestAtOnce      bool      `json:"nest_at_once,omitempty"`    // s2c calls: the tool handler returns the moment its cancelled nested call has returned (the cancellation notice is sent asynchronously and must still reach the client)
+	CallerClose     bool      `json:"caller_close,omitempty"`    // sdk mode, persistent transports: at the end the caller's own session is closed gracefully with two calls parked at the peer; one of them is then cancelled (its notice must still go out), the other completes
 	DrainCancel     int       `json:"drain_cancel,omitempty"`    // sdk mode, persistent transports: at the end this many parked calls are cancelled while the callee is already draining under a graceful Close
 }
 
@@ -144,6 +145,8 @@ func genC04(r *vh.Rand) c04Spec {
 	}
 	if s.Mode == "sdk" && (s.Transport == "mem" || s.Transport == "pipe") && r.Chance(1, 3) {
 		s.DrainCancel = r.Range(1, 3)
+	} else if s.Mode == "sdk" && (s.Transport == "mem" || s.Transport == "pipe") && r.Chance(1, 3) {
+		s.CallerClose = true
 	}
 	return s
 }
@@ -217,6 +220,7 @@ func runC04SDK(c *vh.Case, spec c04Spec) {
 		release[n] = make(chan struct{}) // calls of the drain-then-cancel epilogue: never released
 	}
 	release[9000], release[9001] = make(chan struct{}), make(chan struct{})
+	release[9200], release[9201] = make(chan struct{}), make(chan struct{}) // calls of the caller-close epilogue
 	close(release[9000])
 	close(release[9001])
 	server := mcp.NewServer(&mcp.Implementation{Name: "s", Version: "1"}, &mcp.ServerOptions{
@@ -433,6 +437,42 @@ func runC04SDK(c *vh.Case, spec c04Spec) {
 		dcancel()
 		dwg.Wait()
 		log.Add("drain-done")
+	}
+	if spec.CallerClose {
+		// The caller closes its own session gracefully while two of its calls are parked at the peer; Close waits
+		// for them. One is then cancelled: the peer's handler for exactly that call must see it at once. The
+		// other is released afterwards and completes, which lets the Close finish.
+		var cwg sync.WaitGroup
+		c1ctx, c1cancel := context.WithCancel(ctx)
+		rel2 := release[9201]
+		for _, n := range []int{9200, 9201} {
+			cwg.Add(1)
+			go func() {
+				defer cwg.Done()
+				cc := ctx
+				if n == 9200 {
+					cc = c1ctx
+				}
+				log.Add("call-start", "n", n)
+				res, err := cs.CallTool(cc, &mcp.CallToolParams{Name: "park", Arguments: map[string]any{"nonce": n}})
+				log.Add("call-return", "n", n, "outcome", c04Classify(textOf(res), err))
+			}()
+		}
+		synctestWait()
+		cwg.Add(1)
+		go func() {
+			defer cwg.Done()
+			log.Add("caller-close-called")
+			cs.Close()
+			log.Add("caller-close-returned")
+		}()
+		time.Sleep(ms(2))
+		log.Add("caller-cancel")
+		c1cancel()
+		time.Sleep(ms(2))
+		log.Add("caller-release")
+		close(rel2)
+		cwg.Wait()
 	}
 	// release every handler that is still parked (never-released, never-cancelled ones), then close
 	log.Add("closing")
@@ -755,6 +795,42 @@ func decideC04(c *vh.Case, spec c04Spec) {
 	if noticeFor[0] > 0 {
 		c.Violate("cancel-notice-mismatch", "peer received %d cancellation notice(s) whose requestId matches no request it was sent", noticeFor[0])
 		return
+	}
+	if spec.CallerClose {
+		var ccT, relT, closeRet int64 = -1, -1, -1
+		for _, e := range evs {
+			switch e.Kind {
+			case "caller-cancel":
+				ccT = e.T
+			case "caller-release":
+				relT = e.T
+			case "caller-close-returned":
+				closeRet = e.T
+			}
+		}
+		if _, started := hstart[9200]; started && ccT >= 0 {
+			if hd, ok := hdone[9200]; !ok || hd.T != ccT {
+				c.Violate("handler-not-cancelled/caller-closing", "the caller had begun a graceful Close of its own session with two calls parked at the peer; one of them was cancelled at %dus; its handler observed cancellation: %v (at %dus)", ccT, ok, hd.T)
+				return
+			}
+			if r, ok := ret[9200]; !ok || r.T != ccT || !strings.HasPrefix(fstr(r, "outcome"), "ctx") {
+				c.Violate("cancel-not-prompt", "call 9200 cancelled at %dus (caller closing) returned %v at %dus with %q", ccT, ok, r.T, fstr(r, "outcome"))
+				return
+			}
+			if hd, ok := hdone[9201]; ok && hd.T < relT {
+				c.Violate("wrong-handler-cancelled", "the other parked call (9201) was never cancelled, yet its handler's context was cancelled at %dus", hd.T)
+				return
+			}
+			if r, ok := ret[9201]; !ok || fstr(r, "outcome") != "ok:nonce-9201" || r.T != relT {
+				c.Violate("response-not-delivered", "call 9201 (parked while its caller's session closes gracefully) was released at %dus and returned %v %q at %dus", relT, ok, fstr(r, "outcome"), r.T)
+				return
+			}
+			if closeRet != relT {
+				c.Violate("close-outlives-cancelled-handlers", "the caller's graceful Close returned at %dus although its last call completed at %dus", closeRet, relT)
+				return
+			}
+			c.Count("caller_close_cases", 1)
+		}
 	}
 	if spec.DrainCancel > 0 {
 		var dcT, closeRet int64 = -1, -1
